@@ -60,11 +60,13 @@ namespace occa {
     if (!modeKernel) {
       return;
     }
-    modeKernel->removeKernelRef(this);
+    // Whether this was the last reference is decided together with its
+    // removal: the object may be gone as soon as another thread removes its own
+    const bool needsFree = modeKernel->removeKernelRef(this);
 #ifdef LIBOCCA_OCCA_VERIF
     verif::yield(verif::ptAfterRemoveKernelRef);
 #endif
-    if (modeKernel->modeKernel_t::needsFree()) {
+    if (needsFree) {
       free();
     }
   }
